@@ -161,6 +161,11 @@ def c13(rng):
         bad = signers[:-1] + [outsider]
         w2 = b''.join(bs(T.make_single_sig_witness(SEEDS[s], sf, flh)) for s in bad)
         out.append(('multisig:outsider', [w2, bs(lock)], sf, cfg, False))
+    # fewer signatures than the quorum asks for (m - 1 honest ones; none at all): refused
+    wshort = b''.join(bs(T.make_single_sig_witness(SEEDS[s_], sf, flh)) for s_ in signers[:-1])
+    out.append(('multisig:%d of the %d signatures the quorum asks for' % (m - 1, m), [wshort, bs(lock)], sf, cfg, False))
+    if m >= 2:
+        out.append(('multisig:a single signature against a quorum of %d' % m, [bs(T.make_single_sig_witness(SEEDS[signers[0]], sf, flh)), bs(lock)], sf, cfg, False))
     if m >= 2:
         w3 = b''.join(bs(T.make_single_sig_witness(SEEDS[s], sf, flh)) for s in ([signers[0]] * m))
         out.append(('multisig:repeated-signature', [w3, bs(lock)], sf, cfg, False))
@@ -428,9 +433,10 @@ def c15(rng):
     # ... and given per call: run_script(witness + lock, additional_flags={'ts_threshold': X})
     lkp_ = T.make_ptlc_lock(PUBS[rcv], PUBS[ref], timeout=5, sigflags=flh)
     wrp_ = T.make_ptlc_refund_witness(SEEDS[ref], sf, flh)
-    for thr_ in (10, 300, 0):
-        out.append(('run_script: ptlc refund 25 s ahead of the clock, per-call ts_threshold=%d' % thr_, [bs(wrp_), bs(lkp_)], dict(sf, timestamp=now + 25),
-                    tsh.Cfg(flags={'ts_threshold': thr_}), thr_ <= 0 or 25 < thr_))
+    for thr_ in (10, 300, 0, -1):
+        for ahead_ in (25, 100):
+            out.append(('run_script: ptlc refund %d s ahead of the clock, per-call ts_threshold=%d' % (ahead_, thr_), [bs(wrp_), bs(lkp_)], dict(sf, timestamp=now + ahead_),
+                        tsh.Cfg(flags={'ts_threshold': thr_}), thr_ <= 0 or ahead_ < thr_))
     # cross-pairings of the witness kinds with the lock kinds (what each pair must give follows from the exact lock theorems:
     # the model decides, no separate expectation), before and at the deadline, by the receiver and by the refund key
     locks = [(lf.__name__[5:-5], lf(PUBS[rcv], PUBS[ref], preimage=pre, timeout=timeout, sigflags=flh, **kw2)) for lf, _, kw2 in builders]
@@ -645,6 +651,17 @@ def c04(rng):
         for l in leaves_of(tree):
             l.unlocking_script()
         tree.locking_script()
+        if rng.random() < 0.5:
+            # an attempted extension that fails (a leaf that does not compile, listed before one that does) must leave the old tree intact
+            before_ = ([bs(l.unlocking_script()) for l in leaves_of(tree)], bs(tree.locking_script()), tree.pack())
+            try:
+                T.make_script_tree_prioritized([rng.choice(['if { true', 'push', 'OP_NOT_AN_OP']), 'push x07 push x07 equal'], tree=tree)
+                failed_ = False
+            except BaseException:
+                failed_ = True
+            after_ = ([bs(l.unlocking_script()) for l in leaves_of(tree)], bs(tree.locking_script()), tree.pack())
+            out.append(('%s: a failed extension (uncompilable leaf) raises and leaves the existing tree, its lock and its unlocking scripts unchanged' % kind,
+                        None, None, None, failed_ and before_ == after_, None, None))
         tree = T.make_script_tree_prioritized(list(srcs[:cut]), tree=tree)
         lock = tree.locking_script()
         unlocks = [l.unlocking_script() for l in leaves_of(tree)]
@@ -843,6 +860,18 @@ def c05(rng):
         cands = [f for f in (1, 2, 4, 8, 0x10, 0x20, 0x40, 0x80) if f & ~fl]
         if bad_flag := (rng.choice(cands) if cands else None):
             out.append((nm + ':keyspend-flag-not-permitted', [bs(T.make_taproot_witness_keyspend(SEEDS[a], sf, S, sigflags='%02x' % bad_flag)), bs(lock)], sf, cfg, False, None, ''))
+    # a 32-byte "key" that is not a point at all, alone and with a true planted beneath the pair: refused by both locks
+    npk = bytes(rng.getrandbits(8) for _ in range(32))
+    for _ in range(20):
+        if not nb.crypto_core_ed25519_is_valid_point(npk):
+            break
+        npk = bytes(rng.getrandbits(8) for _ in range(32))
+    if not nb.crypto_core_ed25519_is_valid_point(npk):
+        Sq_ = Script.from_src('push d1 push d1 equal')
+        for lf_, nm_ in ((T.make_taproot_lock, 'taproot'), (T.make_nonnative_taproot_lock, 'nonnative')):
+            lk_ = bs(lf_(P, Sq_, sigflags='00'))
+            for pre_, tag_ in ((b'', ''), (b'\x01', ' with a true planted beneath'), (b'\x01\x01', ' with two items planted beneath')):
+                out.append(('%s:scriptspend with a 32-byte key that is not a curve point%s' % (nm_, tag_), [pre_ + gpush(Sq_.bytes) + gpush(npk), lk_], sf, tsh.Cfg(), False, None, None))
     # corruption of the KEY by a small-order component: P' = P + (a point of order 8) is on the curve but not a valid ed25519 point;
     # a root computed for P' must not be spendable through the script path under either lock (and the builders refuse such a key)
     tors = bytes.fromhex(rng.choice(['c7176a703d4dd84fba3c0b760d10670f2a2053fa2c39ccc64ec7fd7792ac037a',
@@ -955,6 +984,10 @@ def c17(rng):
     flip = lambda x: bytes([x[0] ^ 1]) + x[1:]
     sa2 = nb.crypto_core_ed25519_scalar_add(sa, (1).to_bytes(32, 'little'))
     facts.append(('altered sa fails', not chk(sa2, R, m, Tp, X)))
+    sa_int = int.from_bytes(sa, 'little')
+    noncanon = [(sa_int + k_ * L_ORDER).to_bytes(32, 'little') for k_ in range(1, 17) if sa_int + k_ * L_ORDER < 2 ** 256]
+    acc_ = [x_.hex() for x_ in noncanon if chk(x_, R, m, Tp, X)]
+    facts.append(('every non-canonical representative sa + k*L (k = 1..%d) is refused%s' % (len(noncanon), (' -- ACCEPTED: %s with R=%s m=%s T=%s X=%s' % (acc_[:2], R.hex(), m.hex(), Tp.hex(), X.hex())) if acc_ else ''), not acc_))
     facts.append(('altered R fails', not chk(sa, PUBS[b], m, Tp, X)))
     facts.append(('altered T fails', not chk(sa, R, m, PUBS[b], X)))
     facts.append(('altered message fails', not chk(sa, R, m + b'!', Tp, X)))
@@ -1149,6 +1182,24 @@ def c18(rng):
     out.append(('MT', 'AMHLKEY %s %s' % (Ys[0].hex(), am['key'].hex()), 'ok ' + ('T' if _AM.AMHL.verify_lock_key(Ys[0], am['key']) else 'F')))
     ok = all(_AM.AMHL.check_setup(_AM.AMHL.setup_for(setup, i), i, n) for i in range(n + 1))
     out.append(('amhl: every view passes check_setup', None, None, None, ok))
+    # a view whose two lock points were both shifted by the same point of order 4 or 8 still satisfies right = left + point(secret) as
+    # encodings, but is not a view of any chain: check_setup must not answer True (it may raise)
+    if n >= 3:
+        i_ = rng.randrange(1, n)
+        v_ = _AM.AMHL.setup_for(setup, i_)
+        if len(v_) == 3:
+            tor_ = bytes.fromhex(rng.choice(['c7176a703d4dd84fba3c0b760d10670f2a2053fa2c39ccc64ec7fd7792ac037a', '26e8958fc2b227b045c3f489f2ef98f0d5dfac05d3c63339b13802886d53fc05',
+                                             '0000000000000000000000000000000000000000000000000000000000000000', '0000000000000000000000000000000000000000000000000000000000000080']))
+            try:
+                bad_ = (nb.crypto_core_ed25519_add(v_[0], tor_), nb.crypto_core_ed25519_add(v_[1], tor_), v_[2])
+                try:
+                    acc_ = _AM.AMHL.check_setup(bad_, i_, n) is True
+                except BaseException:
+                    acc_ = False
+                out.append(('amhl: a view with both lock points shifted by a point of order 4 / 8 is not accepted by check_setup%s' % (
+                            (' -- ACCEPTED: party %d of %d, view %s' % (i_, n, [x_.hex() for x_ in bad_])) if acc_ else ''), None, None, None, not acc_))
+            except BaseException:
+                pass
     ok = len(ys) == n and len(Ys) == n
     out.append(('amhl: setup(n, seed) has n secrets and n points (prior use of the seed: %s)' % prior, None, None, None, ok))
     out.append(('amhl: final key opens last lock (prior use of the seed: %s)' % prior, None, None, None, _AM.AMHL.verify_lock_key(Ys[n - 1], am['key'])))
